@@ -9,6 +9,7 @@ import (
 	"io"
 	"runtime"
 	"sync"
+	"time"
 
 	"verifharness/internal/hx"
 )
@@ -209,6 +210,92 @@ func (p *livePipe) Close() error {
 	p.cond.Broadcast()
 	p.mu.Unlock()
 	return nil
+}
+
+// gatedStream is a re-chunking stream whose chunks are released one by one
+// by the test schedule: a Read blocks until the next chunk is released (or the
+// stream is finished), and never spans two chunks. Same chunk semantics as
+// chunkReader (the unread part of a chunk stays available).
+type gatedStream struct {
+	mu       sync.Mutex
+	cond     *sync.Cond
+	data     []byte
+	chunks   []int
+	pos      int
+	ci       int // chunks fully or partly handed out
+	cur      int // unread part of the current chunk
+	released int
+	finished bool
+	reads    int // number of underlying Read calls that returned data
+}
+
+func newGatedStream(data []byte, chunks []int) *gatedStream {
+	g := &gatedStream{data: data, chunks: chunks}
+	g.cond = sync.NewCond(&g.mu)
+	return g
+}
+
+func (g *gatedStream) Read(p []byte) (int, error) {
+	g.mu.Lock()
+	defer g.mu.Unlock()
+	for {
+		if g.pos >= len(g.data) && g.finished {
+			return 0, io.EOF
+		}
+		if g.cur > 0 || (g.ci < g.released && g.ci < len(g.chunks)) {
+			break
+		}
+		g.cond.Wait()
+	}
+	if len(p) == 0 {
+		return 0, nil
+	}
+	if g.cur == 0 {
+		g.cur = g.chunks[g.ci]
+		g.ci++
+	}
+	k := len(p)
+	if g.cur < k {
+		k = g.cur
+	}
+	copy(p, g.data[g.pos:g.pos+k])
+	g.pos += k
+	g.cur -= k
+	g.reads++
+	return k, nil
+}
+
+func (g *gatedStream) Write(b []byte) (int, error) { return len(b), nil }
+func (g *gatedStream) Close() error                { return nil }
+
+func (g *gatedStream) release(n int) {
+	g.mu.Lock()
+	g.released += n
+	if g.released >= len(g.chunks) {
+		g.released = len(g.chunks)
+		g.finished = true
+	}
+	g.cond.Broadcast()
+	g.mu.Unlock()
+}
+
+// settle waits until the consumer of the stream makes no more progress
+// (everything released was read, or it is blocked elsewhere).
+func (g *gatedStream) settle() {
+	last, same := -1, 0
+	deadline := time.Now().Add(200 * time.Millisecond)
+	for same < 8 && time.Now().Before(deadline) {
+		g.mu.Lock()
+		n := g.reads
+		g.mu.Unlock()
+		if n == last {
+			same++
+		} else {
+			last, same = n, 0
+		}
+		runtime.Gosched()
+		time.Sleep(150 * time.Microsecond)
+	}
 }
 
 func chunkStyle(c *hx.Ctx) int { return c.Rng.Intn(4) }
